@@ -314,6 +314,10 @@ fn main() {
                         // cut the model short and drop the terminating 0
                         let keep = lits.len() / 2;
                         lits.truncate(keep);
+                        if cfg["trunc_flavour"].as_u64().unwrap_or(0) == 1 {
+                            // the solver died right after the sign of the next literal
+                            lits.push("-".to_string());
+                        }
                     } else {
                         lits.push("0".to_string());
                     }
